@@ -235,7 +235,11 @@ PROPS["C04"] = {
                    "histories and rebuild; after every step every offset returned so far in the current file is read "
                    "back and compared byte-for-byte, offsets must be pairwise distinct, and every retrievable id "
                    "must return its bytes. The debug build grows the map every few events (growth count in the "
-                   "evidence); the release leg stores ~60 KiB events until the 4 MiB map has grown at least twice."),
+                   "evidence); the release leg stores ~60 KiB events until the 4 MiB map has grown at least twice. One "
+                   "history in eight continues above a large offset: the store is closed, event.map is made sparse-large "
+                   "with its end marker a few bytes below 2^31 / 2^32 / 2^33, and the history carries on after the "
+                   "reopen, so that events straddle and pass those values (the same happens in the model-checked "
+                   "histories of C05, C09-C12 and C16-C18)."),
     "level_note": DB_NOTE,
     "legs": lambda tier: db_legs("c04", tier, valgrind=True, parallel_thorough=6),
     "rule": hist_rule("profile append", "the history contains at least one file growth or reopen after the first store"),
@@ -287,9 +291,14 @@ PROPS["C10"] = {
                    "request the view of all events not authored by the requester (retrievability by id, by address, "
                    "by author query, id and address markers) is captured before and after and must be identical "
                    "whatever the request returned; later submissions by the victim must never be refused as deleted "
-                   "on account of a request that named them and failed."),
+                   "on account of a request that named them and failed. Arrival 'at any point' includes arrival "
+                   "while the victim's store is in progress: leg `conc` takes the foreign / mixed deletion-request "
+                   "scenarios of C14's catalogue (request vs store of its target, both orders, e and a forms), parks "
+                   "the first operation at every hit of every verif point while the other runs or blocks, and "
+                   "requires that an event of the other author whose store returned an offset is retrievable and "
+                   "unmarked afterwards, and that the other author's address carries no marker."),
     "level_note": DB_NOTE,
-    "legs": lambda tier: db_legs("c10", tier, parallel_thorough=6),
+    "legs": lambda tier: db_legs("c10", tier, parallel_thorough=6) + [leg("conc", "release", ["c10conc"], timeout=900)],
     "rule": hist_rule("profile foreign-delete", "at least one kind-5 request was guarded"),
     "assumptions": ["ids that are not stored when a request arrives are outside the property (the code marks them deliberately)"],
 }
@@ -432,10 +441,11 @@ def c14_legs(tier):
 PROPS["C14"] = {
     "level": "exploration",
     "technique": "runtime monitoring: schedule control at verif points (pause A at each point, run B/C, search a real-time-respecting serial order against the reference model), multi-core stress with an offline history checker (commit order = offset order, real-time windows), gdb-exhibited lock cycles for hangs, child-process growth scenarios; thorough: ThreadSanitizer and ASan builds of the same workloads",
-    "level_text": ("Leg 1 (deterministic): for ~55 catalogued operation pairs/triples on one store (a query over several authors / kinds / tag values parked inside its scan, at the caller's screen callback, while two stores commit; same event 2-3x; "
+    "level_text": ("Leg 1 (deterministic): for ~60 catalogued operation pairs/triples on one store (a query over several authors / kinds / tag values parked inside its scan, at the caller's screen callback, while two stores commit; same event 2-3x; "
                    "older/newer/equal events for one replaceable or parameterised address, with a query; store vs "
                    "find_events/get_event_by_id/has_event and the reverse; remove vs query; deletion request vs store "
-                   "or read of its target; address deletion vs store at the address; vanish vs store) operation A is "
+                   "or read of its target, by the target's author and by another author, alone and mixed with an own target; "
+                   "address deletion vs store at the address, own and foreign; vanish vs store) operation A is "
                    "paused at each of its verif points (quick: first and last occurrence of each point name; thorough: "
                    "every hit) while the others run or block; every result and the final state must be explained by "
                    "some serial order that respects real time. Leg 2: 8 threads x 10-120 rounds, shared pool with "
